@@ -214,7 +214,7 @@ def gen_case(rng, fam=None):
 
 
 def corner_cases():
-    """deterministic cases always run first (F12 boundary, wrap, cut-off, face-2 zenith)"""
+    """deterministic cases always run first (former F12 boundary inputs, aliased points)"""
     z = hx(0.0)
     cases = []
     # F12: misclosure exactly -200 gon / +200 gon at double
@@ -288,13 +288,16 @@ def fd_plan(meta, ob):
     cases, descr = [single_obs_lines(meta, ob)], []
     for nm in roles:
         for ci, cn in enumerate("xyz"):
+            got = []
             for sgn in (+1, -1):
                 q = dict(P)
                 v = list(P[nm])
                 v[ci] += sgn * h
+                got.append(v[ci])
                 q[nm] = tuple(v)
                 cases.append(single_obs_lines(meta, ob, q))
-            descr.append((nm, cn, h * 1000.0))            # step in mm
+            # the step actually taken (coordinates of national-grid size quantise a 1e-6 m bump)
+            descr.append((nm, cn, (got[0] - got[1]) / 2 * 1000.0))            # step in mm
     if ob["k"] != "-":
         ho = 1e-6
         for sgn in (+1, -1):
@@ -325,6 +328,13 @@ def fd_check(meta, ob, outs, descr):
         coeff[i] = coeff.get(i, 0.0) + c
     cmax = max([abs(c) for c in coeff.values()] + [1e-300])
     angular = ob["cls"] in ANGULAR or ob["cls"] == "Z_Angle"
+    # rounding noise of the implementation's rhs (not a property of the coefficients): eps * |rhs|, plus for
+    # zenith angles the conditioning of acos(dz/sd) near the vertical, eps * sd/d radians
+    P = meta["pts"]
+    pa, pb = P[ob["frm"]], P[ob["to"]]
+    dh = math.hypot(pb[0] - pa[0], pb[1] - pa[1])
+    sd = math.sqrt(dh * dh + (pb[2] - pa[2]) ** 2)
+    rnoise = 4.5e-16 * (abs(L["rhs"]) + (R2CC * (1 + sd / dh) if ob["cls"] == "Z_Angle" and dh > 0 else 0.0))
     for j, (who, cn, step) in enumerate(descr):
         lp = [parse_lin(l) for l in outs[1 + 2 * j] if l.startswith("lin")]
         lm = [parse_lin(l) for l in outs[2 + 2 * j] if l.startswith("lin")]
@@ -340,19 +350,19 @@ def fd_check(meta, ob, outs, descr):
         have = coeff.get(i, None) if i else None
         if have is None:
             # no coefficient: the unknown must be not free, or the function must not depend on it
-            if free and abs(fd) > 1e-4 * cmax + 1e-7:
+            if free and abs(fd) > 1e-4 * cmax + 1e-7 + 8 * rnoise / step:
                 return {"what": "missing coefficient", "unknown": [str(who), cn], "finite_difference": fd, "coeffs": L["rows"]}
             continue
         if not free:
             return {"what": "coefficient for a non-free coordinate", "unknown": [str(who), cn], "coeff": have}
-        if abs(fd - have) > 2e-4 * cmax + 1e-7:
+        if abs(fd - have) > 2e-4 * cmax + 1e-7 + 8 * rnoise / step:
             return {"what": "coefficient differs from the finite difference of the implementation's own rhs",
                     "unknown": [str(who), cn], "coeff": have, "finite_difference": fd, "step": step}
     return None
 
 
 def rhs_check(meta, ob, L, xn):
-    """rhs = unit * (observed - computed) reduced into [-200e4, 200e4] (what the loops give)"""
+    """rhs = unit * (observed - computed), angular ones reduced into (-200e4, 200e4] (what the loops give)"""
     P = {nm: p[:3] for nm, p in meta["pts"].items()}
     cls = ob["cls"]
     ori = meta["sps"][ob["k"]][1] if ob["k"] != "-" else 0.0
@@ -370,8 +380,8 @@ def rhs_check(meta, ob, L, xn):
     val = L["value"]
     mag = max(abs(v) for nm in (ob["frm"], ob["to"]) for v in P[nm])
     if cls in ANGULAR:
-        if not (-200e4 <= L["rhs"] <= 200e4):
-            return {"what": "angular rhs outside [-200e4, 200e4]", "rhs": L["rhs"]}
+        if not (-200e4 < L["rhs"] <= 200e4):
+            return {"what": "angular rhs outside the half-open range (-200e4, 200e4]", "rhs": L["rhs"]}
         want = (val - tv) * R2CC
         diff = L["rhs"] - want
         diff -= FULL * round(diff / FULL)
@@ -397,10 +407,6 @@ def rhs_check(meta, ob, L, xn):
     if abs(L["rhs"] - want) > tol:
         return {"what": "rhs is not unit*(observed - computed)", "rhs": L["rhs"], "expected": want}
     return None
-
-
-def known_f12(ctx):
-    return any(f.get("id") == "F12" and f.get("status") == "known" for f in load_findings(ID))
 
 
 # ----------------------------------------------------------------------------- correspondence
@@ -432,9 +438,8 @@ def run_oracle(ctx, exe, metas, corr, per_case=2, stop_first=False):
         for ob in obs:
             if k >= per_case:
                 break
-            if ob["cls"] == "Z_Angle" and ob["val"] > math.pi and not FACE2_IN_ORACLE:
-                corr.count("oracle_skipped_zenith_face2")
-                continue
+            if ob["cls"] == "Z_Angle" and ob["val"] > math.pi:
+                corr.count("oracle_fd_zenith_second_face")
             pl = fd_plan(meta, ob)
             if not pl:
                 continue
@@ -458,7 +463,6 @@ def run_oracle(ctx, exe, metas, corr, per_case=2, stop_first=False):
     return fails
 
 
-FACE2_IN_ORACLE = False     # zenith readings > pi: see finding F16 in notes/reports/C05.md
 
 
 def correspond(ctx, corr):
@@ -539,16 +543,16 @@ def correspond(ctx, corr):
                 f12 += 1
             bad = rhs_check(meta, ob, L, xn)
             if bad:
-                corr.fail(bad["what"], {"stream": "lin", "ops": single_obs_lines(meta, ob), "detail": bad},
+                corr.fail(bad["what"], {"stream": "lin", "ops": single_obs_lines(meta, ob), "detail": bad, "meta": meta, "ob": ob},
                           "LocalLinearization::" + ob["cls"].lower(), json.dumps(bad))
     corr.maxstat("max_rel_dev_model_vs_impl", maxdev)
     corr.count("observations", nobs)
-    corr.count("F12_rhs_exactly_+-200e4", f12)
+    corr.count("rhs_exactly_+200e4(closed end of the range)", f12)
     # finite-difference oracle on the implementation
     fails = run_oracle(ctx, exe, [(c, m) for c, m in zip(cases, metas) if m is not None], corr,
                        per_case=ctx.size(2, 3))
     for meta, ob, bad, lines in fails[:20]:
-        corr.fail(bad["what"], {"stream": "lin-fd", "ops": lines, "detail": bad},
+        corr.fail(bad["what"], {"stream": "lin-fd", "ops": lines, "detail": bad, "meta": meta, "ob": ob},
                   "LocalLinearization::" + ob["cls"].lower(), json.dumps(bad))
     if nobs and len(corr.nontrivial) < 200:
         corr.inconclusive.append(f"only {len(corr.nontrivial)} distinct non-trivial observations")
@@ -564,8 +568,6 @@ def search(ctx, broken, corr):
     implementation's coefficients or rhs differ from finite differences / observed - computed."""
     exe = harness(ctx)
     out = []
-    global FACE2_IN_ORACLE
-    saved = FACE2_IN_ORACLE
     try:
         for rnd in range(ctx.size(6, 40)):
             metas = []
@@ -582,17 +584,17 @@ def search(ctx, broken, corr):
                     if L:
                         bad = rhs_check(meta, ob, L, xn)
                         if bad:
-                            out.append(Failure(bad["what"], {"stream": "lin", "ops": single_obs_lines(meta, ob), "detail": bad},
+                            out.append(Failure(bad["what"], {"stream": "lin", "ops": single_obs_lines(meta, ob), "detail": bad, "meta": meta, "ob": ob},
                                                "LocalLinearization::" + ob["cls"].lower(), json.dumps(bad)))
                             return out
             fails = run_oracle(ctx, exe, metas, Corr(), per_case=9, stop_first=True)
             if fails:
                 meta, ob, bad, lines = fails[0]
-                out.append(Failure(bad["what"], {"stream": "lin-fd", "ops": lines, "detail": bad},
+                out.append(Failure(bad["what"], {"stream": "lin-fd", "ops": lines, "detail": bad, "meta": meta, "ob": ob},
                                    "LocalLinearization::" + ob["cls"].lower(), json.dumps(bad)))
                 return out
     finally:
-        FACE2_IN_ORACLE = saved
+        pass
     return out
 
 
@@ -603,17 +605,26 @@ def rng_family(ctx, i):
 def classify(ctx, failure):
     d = (failure.replay or {}).get("detail") or {}
     ops = " ".join((failure.replay or {}).get("ops") or [])
-    if "Z_Angle" in ops and "finite difference" in failure.what:
-        return "F16"
     return None
 
 
+def _meta_from_json(m):
+    m = dict(m)
+    m["sps"] = {int(k): tuple(v) for k, v in m["sps"].items()}
+    m["pts"] = {k: tuple(v) for k, v in m["pts"].items()}
+    return m
+
+
 def replay(ctx, payload):
+    """re-run the recorded failing observation on the current tree: prints the implementation's
+    answer and re-evaluates the oracle (rhs = observed - computed; coefficients vs central
+    differences of the implementation's own rhs).  rc 1 = still failing."""
     f = payload.get("failure")
     if not f:
         print(json.dumps(payload.get("no_longer_checks"), indent=1)[:4000])
         return 0
-    ops = f["input"].get("ops")
+    inp = f["input"]
+    ops = inp.get("ops")
     exe = harness(ctx)
     impl, crashes = run_cases(exe, [ops])
     print("input:")
@@ -621,9 +632,29 @@ def replay(ctx, payload):
         print("  ", l)
     print("implementation now:")
     for l in impl[0]:
-        print("  ", l)
         L = parse_lin(l)
         if L:
-            print("     value", L["value"], "rhs", L["rhs"], "rows", L["rows"])
-    print("recorded:", json.dumps(f["input"].get("detail"), indent=1))
-    return 1 if crashes else 0
+            print("   lin value=%r rhs=%r rows=%r" % (L["value"], L["rhs"], L["rows"]))
+        else:
+            print("  ", l)
+    print("recorded:", json.dumps(inp.get("detail")))
+    if crashes:
+        print("harness crashed:", crashes[0][1][-1500:])
+        return 1
+    if not inp.get("meta"):
+        return 0
+    meta, ob = _meta_from_json(inp["meta"]), inp["ob"]
+    still = None
+    for l in impl[0]:
+        L = parse_lin(l)
+        if L:
+            still = rhs_check(meta, ob, L, xnorth(meta["cs"], meta["rh"]))
+            break
+    if not still:
+        pl = fd_plan(meta, ob)
+        if pl:
+            outs, cr = run_cases(exe, pl[0])
+            if not cr:
+                still = fd_check(meta, ob, outs, pl[1])
+    print("oracle now:", json.dumps(still) if still else "passes")
+    return 1 if still else 0
